@@ -487,7 +487,7 @@ def dispatch(ctx, case):
     if case.get('op') == 'utpclass':
         return utp_class_fails(case)
     if case.get('op') == 'intarr-pow':
-        return intarr_pow_fails(case)
+        return intarr_pow_fails(case, ctx)
     if case.get('form') == 'inplace-view':
         return inplace_view_fails(case)
     if case.get('op') == 'pow':
@@ -615,7 +615,7 @@ def systematic_narrow_scalars(ctx):
                     ctx.report(case, 'failure', res)
 
 
-def intarr_pow_fails(case):
+def intarr_pow_fails(case, ctx=None):
     """x ** r with r an ndarray of non-negative integers: entry by entry the power with the Python int r[i] (the product; tied
     to the model by the scalar-exponent cases), whatever the container / integer dtype of the exponent, also at zero base points"""
     x = np.array(case['x'])
@@ -634,6 +634,17 @@ def intarr_pow_fails(case):
             if not np.allclose(y.data[sel], want, rtol=1e-12, atol=1e-13, equal_nan=False):
                 return 'intarr-pow: entry %s of x ** %s array differs from x[i] ** %d (base point %s): %s vs %s' % (
                     idx, r.dtype, int(rb[idx]), x[0][(slice(None),) + idx].tolist(), y.data[sel].ravel().tolist()[:6], want.ravel().tolist()[:6])
+        if ctx is not None:
+            # the tie of the model the theorem C02.pow_int_array_entry is about: masked products up to the largest exponent
+            rmax = int(r.astype(int).max())
+            for e in sorted(set(int(v) for v in rb.ravel())):
+                lv = [enc_arr(np.zeros(x[0].shape))] * (rmax - e)
+                m = ctx.model.arrs({'op': 'ew1', 'fn': 'powmask', 'x': enc_arr(x), 'leaves': lv, 'params': [], 'n': e})
+                if isinstance(m, str):
+                    return 'intarr-pow-model: the model rejected the case (%s)' % m[:80]
+                mask = np.broadcast_to(rb == e, x.shape)
+                if not np.allclose(y.data[mask], np.asarray(m[0], dtype=float)[mask], rtol=1e-12, atol=1e-13):
+                    return 'mismatch-intarr-pow: entries with exponent %d differ from the masked-product model (largest exponent %d)' % (e, rmax)
     return None
 
 
@@ -653,7 +664,7 @@ def systematic_intarr_pow(ctx):
             case = {'op': 'intarr-pow', 'D': D, 'P': P, 'x': x, 'r': r.tolist(), 'dtype': dtype}
             ctx.evaluations += 1
             ctx.count('pow:int-array')
-            res = intarr_pow_fails(case)
+            res = intarr_pow_fails(case, ctx)
             if res is not None:
                 ctx.report(case, 'failure', res)
 
